@@ -218,7 +218,7 @@ def run(ctx):
         ndrift += len(tv.tagged("DRIFT"))
     lap("tlc_trace_validation")
     ctx.set("phase_wall_s", phase)
-    ctx.set("traces_validated_against_impl", len(cases) + len(recs))
+    ctx.set("traces_validated_against_impl", len(cases) + len(recs) + len(scripts))
     ctx.set("life_runs_judged", nlife_runs)
     ctx.set("trace_records", len(recs))
     ctx.set("trace_records_excluded", tvopen)
